@@ -15,6 +15,28 @@ theorem empty_sheet_no_rows : rowIter .headingRow [] = (none, []) := rfl
 /-- without a header loader every physical row is delivered -/
 theorem no_loader_all_rows (rows : List RowData) : (rowIter .none rows).2 = rows := rfl
 
+/-! ## histories of one Sheet object -/
+
+/-- **C09 over histories.** Whatever was done with a sheet before -- schemas bound, loaders installed, earlier passes over other
+content -- once the heading-row loader is installed a pass over `hdr :: body` takes THIS header as the schema and delivers exactly
+`body`: nothing of an earlier pass survives, the heading row is never delivered as data. -/
+theorem pass_history_independent (s0 : Sheet) (ops : List SOp) (hdr : RowData) (body : List RowData) :
+    (((s0.run ops).step (.setLoader .headingRow)).1.step (.pass (hdr :: body))).2 = some (some (headingSchema hdr), body) := by
+  simp [Sheet.step, rowIter]
+
+/-- and a second pass right after the first (the caller rewound or replaced its file object) behaves like the first -/
+theorem second_pass_like_first (s0 : Sheet) (hdr hdr' : RowData) (body body' : List RowData) (h : s0.loader = .headingRow) :
+    ((s0.step (.pass (hdr :: body))).1.step (.pass (hdr' :: body'))).2 = some (some (headingSchema hdr'), body') := by
+  simp [Sheet.step, rowIter, h]
+
+/-- a schema bound with `set_schema` stays in force over passes (all rows delivered) until a loader replaces it -/
+theorem bound_schema_all_rows (s0 : Sheet) (sch : List (String × Nat)) (rows : List RowData) :
+    ((s0.step (.setSchema sch)).1.step (.pass rows)).2 = some (some sch, rows) := by
+  simp [Sheet.step, rowIter]
+
+example : (({} : Sheet).run [.setSchema [("ZZ", 0)], .pass [["x"], ["y"]], .setLoader .headingRow, .pass [["a", "b"], ["1", "2"]]]).schema
+    = some [("a", 0), ("b", 1)] := by decide
+
 /-! ## the heading schema of distinct names is "name ↦ its column number" -/
 
 def enumFrom (n : Nat) : List String → List (String × Nat)
